@@ -36,7 +36,7 @@ def gen_case(ctx, rng, i, tag='random', maxops=40):
         else:
             op = ['active']
         threads[rng.randrange(nthreads)].append(op)
-    pol, knobs = draw_env(rng, tcp=remote)
+    pol, knobs = draw_env(rng, tcp=remote, adversarial_ok=True)
     return {'kind': 'mixed', 'threads': threads, 'remote': remote, 'autoclose_prefix': rng.choice([0, 0, 3, 6]),
             'policy': pol, 'knobs': knobs, 'sched_seed': ctx.case_seed(tag, i)}
 
